@@ -6,7 +6,7 @@ from vf.props import track_common as tc
 LEVEL = "exploration"
 RULE = ("simulated scenes that satisfy the premise by construction (asserted per history): 1-5 animals whose bodies (>=30 px, bbox area >= 0.6 b^2) stay within "
         "0.25 b of fixed centres >= 3.5 b apart, per-frame step <= 0.05 b, random per-frame detection order, absences covering fewer than `window` non-empty frames, "
-        "newcomers only in frames where every previously seen animal is detected (a quarter of the non-IoU scenes: jumps of up to 1.1 b per frame between animals >= 12 b apart), scores above the new-track threshold; crossed with every tracker configuration "
+        "newcomers only in frames where every previously seen animal is detected (a quarter of the non-IoU scenes: jumps of up to 1.1 b per frame between animals >= 12 b apart; a fifth of the others: the whole group drifts 0.15-0.3 b per frame for 20-45 frames), scores above the new-track threshold; crossed with every tracker configuration "
         "(2 candidate methods x 2 matchers x 4 feature/score pairs (keypoints+oks, centroids+euclid, bboxes+iou, keypoints+euclid) x 2 reductions x window{1,2,3,5} x threshold{0,0.5}). non-trivial = >=2 animals with an order change, "
         "absence or newcomer; distinct by (presence pattern, order pattern hash, configuration)")
 ASSUMPTIONS = ["all keypoints visible (the premise is about separation and motion)", "a fresh Tracker per history",
@@ -37,6 +37,14 @@ def gen_scene(r, cfg):
     layout = str(r.choice(["grid", "random", "staircase", "row"]))
     if fast and layout == "staircase":
         layout = "row"
+    # drift regime: the whole group translates by 0.15-0.3 body sizes per frame for 20-45 frames (net drift of several animal spacings, relative
+    # positions unchanged), so a late arrival can appear where another animal was first seen
+    drift = bool(not fast and r.random() < 0.2)
+    vel = np.zeros(2)
+    if drift:
+        F = int(r.integers(20, 46))
+        ang = float(r.choice([0.0, np.pi / 2, np.pi, 3 * np.pi / 2, r.uniform(0, 2 * np.pi)]))
+        vel = r.uniform(0.15, 0.3) * b * np.array([np.cos(ang), np.sin(ang)])
     if layout == "grid":
         cols = int(np.ceil(np.sqrt(K)))
         slots = r.permutation(cols * cols)[:K]
@@ -61,7 +69,7 @@ def gen_scene(r, cfg):
     omega = np.minimum(step / np.maximum(amp, 1e-9), 0.5) * r.uniform(0.3, 1.0, K)
     arrival = np.sort(r.integers(0, max(1, F - 1), K))
     arrival[0] = 0
-    p_present = float(r.choice([0.5, 0.8, 1.0]))
+    p_present = 1.0 if drift else float(r.choice([0.5, 0.8, 1.0]))
     score = 0.9 if cfg["instance_score_threshold"] < 0.5 else 0.8
     seen, gap = [], {}
     frames, presence = [], []
@@ -89,11 +97,12 @@ def gen_scene(r, cfg):
             if fast:
                 ang, rad = r.uniform(0, 2 * np.pi), 0.55 * b * np.sqrt(r.random())
                 c = centres[a] + rad * np.array([np.cos(ang), np.sin(ang)])
+            c = c + vel * f
             dets.append({"id": int(a), "pts": (pose + c).tolist(), "score": score})
         order = r.permutation(len(dets))
         frames.append([dets[j] for j in order])
         presence.append(sorted(present))
-    premise = {"b": b, "D": D, "step": step, "max_amp": float(amp.max()), "window": window, "fast": fast}
+    premise = {"b": b, "D": D, "step": step, "max_amp": float(amp.max()), "window": window, "fast": fast, "drift": drift}
     return frames, presence, premise
 
 
@@ -157,6 +166,8 @@ def check(ctx, case):
     cfg, frames = case["cfg"], case["frames"]
     if case["premise"].get("fast"):
         ctx.count("fast_histories")
+    if case["premise"].get("drift"):
+        ctx.count("drift_histories")
     bad = assert_premise(frames, case["premise"], cfg["window_size"])
     if bad is not None:
         ctx.count("generator_premise_rejections")
